@@ -33,7 +33,7 @@ def gen_programs(rep, wd, module, cfg, label, keep=0, exact=False, timeout=1800,
     return out, n, len(rows)
 
 
-def run_and_validate(rep, wd, progs_path, label, shards=8, timeout=3600, trace_module="Core/CoreTrace", sub="core"):
+def run_and_validate(rep, wd, progs_path, label, shards=8, timeout=3600, trace_module="Core/CoreTrace", sub="core", guard=None, signals=None):
     """Runs the programs on the 4 real back-ends (x2 fills) and validates the log with CoreTrace.
     Returns (events: list, bad: [(idx0, kind)])."""
     rows = common.read_ndjson(progs_path)
@@ -51,7 +51,12 @@ def run_and_validate(rep, wd, progs_path, label, shards=8, timeout=3600, trace_m
     def one(arg):
         s, pth = arg
         evp = os.path.join(wd, "%s.s%d.events.ndjson" % (label, s))
-        p = common.harness([sub, pth, evp], env={"VERIF_SEED": common.seed()}, timeout=timeout)
+        if guard:
+            p = common.harness(["guardrun", sub, pth, evp], env={"VERIF_SEED": common.seed(), "VERIF_GUARD": guard}, timeout=timeout)
+            if p.returncode == 0 and signals is not None:
+                signals.extend(common.read_ndjson(evp + ".signals.ndjson"))
+        else:
+            p = common.harness([sub, pth, evp], env={"VERIF_SEED": common.seed()}, timeout=timeout)
         if p.returncode != 0:
             raise ToolError("harness " + sub + " failed rc=%d\n%s" % (p.returncode, p.stdout[-3000:]))
         ev = common.read_ndjson(evp)
